@@ -44,7 +44,7 @@ package process
 
 //@ spec fsize(f Form) int
 //@ macro kid(c Form, bound int) bool = c != nil && formOK(c) && fsize(c) >= 0 && fsize(c) < bound
-//@ macro branchesOK(bs []*BranchForm, bound int) bool = forall i int :: 0 <= i && i < len(bs) ==> bs[i] != nil && kid(bs[i].continuation_e, bound)
+//@ macro branchesOK(bs []*BranchForm, bound int) bool = forall i int :: 0 <= i && i < len(bs) ==> bs[i] != nil && kid(Form(bs[i]), bound) && kid(bs[i].continuation_e, bound)
 //@ spec formOK(f Form) bool = f != nil && fsize(f) >= 0 &&
 //@    (is(f, ReceiveForm) ==> kid(ReceiveForm(f).continuation_e, fsize(f))) &&
 //@    (is(f, BranchForm) ==> kid(BranchForm(f).continuation_e, fsize(f))) &&
@@ -444,3 +444,23 @@ package process
 //@   safety C09
 //@ contract (*NewForm).typecheckForm
 //@   callsite C10.annotationChecked process.declationOfIndependence#2: nameTypeOK && nameTypeOf == old(p.new_name_c.Type)
+
+// ---------------------------------------------------------------------------------------------
+// C09: typechecking is total. Every function reachable from Typecheck is swept: no panic, every loop and
+// recursion has a variant, and the worker hands exactly one verdict to its caller.
+//@ scope C09 Typecheck
+//@ ghost sent Arr[Ref]int
+
+// printers used in diagnostics and logging
+//@ contract interface Form.String(self)
+//@   requires[C09] formOK(self)
+//@   decreases[C09] fsize(self)
+//@ contract interface Form.StringShort(self)
+//@   requires[C09] formOK(self)
+//@   decreases[C09] fsize(self)
+//@ contract StringifyBranches
+//@   inline
+//@ contract StringifyBranchesShort
+//@   inline
+//@ contract stringifyContext
+//@   loop 1 invariant visited == emptyStrSet || len(bufstr[addrof(buffer)]) >= 2
